@@ -25,10 +25,19 @@ def _sparse_inputs(shape, steps, B, seed, rate):
     return xs
 
 
-def neuron_case(cls, B, seed):
+def neuron_case(cls, B, seed, via_setter=False):
     torch.manual_seed(seed)
-    big = n3.mk(cls, 1.0, 2.0, B=B)
-    small = [n3.mk(cls, 1.0, 2.0, B=1) for _ in range(B)]
+    if via_setter:
+        # the batched neuron is a batch-size-1 neuron that has run and is then resized; the copies are resized down
+        big = n3.mk(cls, 1.0, 2.0, B=1)
+        big(torch.full((1, 3), 40.0), **({"adapt": False} if cls in ("ALIF", "GLIF2", "Izhikevich", "AdEx") else {}))
+        big.batchsz = B
+        small = [n3.mk(cls, 1.0, 2.0, B=B) for _ in range(B)]
+        for s_ in small:
+            s_.batchsz = 1
+    else:
+        big = n3.mk(cls, 1.0, 2.0, B=B)
+        small = [n3.mk(cls, 1.0, 2.0, B=1) for _ in range(B)]
     # training mode with adaptation explicitly frozen (adapt=False): the frozen flag must win over the module mode
     big.train()
     for s in small:
@@ -46,7 +55,7 @@ def neuron_case(cls, B, seed):
                     chk.append((an, getattr(big, an), getattr(small[b], an)))  # frozen: stays what the constructor made it
             for name, a, c_ in chk:
                 if not torch.equal(a, c_):
-                    return {"what": f"C11/neuron/{name}", "input": dict(cls=cls, B=B, seed=seed, step=t, sample=b), "expected": c_.flatten().tolist(), "actual": a.flatten().tolist()}
+                    return {"what": f"C11/neuron/{name}", "input": dict(cls=cls, B=B, seed=seed, step=t, sample=b, via_setter=via_setter), "expected": c_.flatten().tolist(), "actual": a.flatten().tolist()}
     return None
 
 
@@ -173,8 +182,9 @@ def sweep(tier="quick", seed=0, unsupported=()):
 
     Bs = (3,) if tier == "quick" else (2, 3, 5)
     for cls, B in itertools.product(["LIF", "ALIF", "GLIF1", "GLIF2", "QIF", "Izhikevich", "EIF", "AdEx"], Bs):
-        cases += 1
+        cases += 2
         add(neuron_case(cls, B, seed))
+        add(neuron_case(cls, B, seed, via_setter=True))
     for kind, B, inplace in itertools.product(["delta", "deltaplus", "single", "double"], Bs, (False, True)):
         cases += 1
         add(synapse_case(kind, B, seed, inplace))
